@@ -598,3 +598,28 @@ func (e *Engine) preemptHereFn(fn *ssa.Function) bool {
 	e.preemptOK[fn] = ok
 	return ok
 }
+
+// isHarnessFn: fn is harness or model code (a zz_verif file or the intrinsics
+// package), as opposed to repository or library code.
+func (e *Engine) isHarnessFn(fn *ssa.Function) bool {
+	if v, ok := e.harnessFn[fn]; ok {
+		return v
+	}
+	root := fn
+	for root.Parent() != nil {
+		root = root.Parent()
+	}
+	res := false
+	if root.Pkg != nil {
+		p := root.Pkg.Pkg.Path()
+		if p == rtPkg {
+			res = true
+		} else if strings.HasPrefix(p, repoMod) && !strings.HasSuffix(p, "/zzverifself") {
+			pos := e.prog.Fset.Position(fn.Pos())
+			base := pos.Filename[strings.LastIndex(pos.Filename, "/")+1:]
+			res = strings.HasPrefix(base, "zz_verif")
+		}
+	}
+	e.harnessFn[fn] = res
+	return res
+}
